@@ -1228,3 +1228,76 @@ def val_source(b, o, depth=8):
                 continue
         break
     return traced(b, cur, 4)
+
+
+def nom_language(b, o, depth=10, limit=64):
+    """The finite set of byte strings a small nom parser expression accepts, or None when it is not one of the understood
+    combinators: tag(k) -> {k}; one_of(s) -> the bytes of s; alt((a, b, ..)) -> union; pair / preceded / terminated / delimited /
+    a tuple -> concatenation; opt(a) -> a plus the empty string; map(a, _) / value / recognize / cut -> a.  (What the parser
+    *returns* is not modelled, only what it consumes.)"""
+    if depth <= 0:
+        return None
+    k = op_const(o)
+    if k is not None:
+        return None            # a function item (content_space, space, ..): an unbounded or unknown language
+    p = op_place(o)
+    if p is None or p["p"]:
+        return None
+    d = b.single_def(p["l"])
+    if d is None:
+        return None
+    if d[2] == "rv":
+        rv = d[3]
+        if rv["k"] in ("use", "cast"):
+            return nom_language(b, rv["o"], depth - 1, limit)
+        if rv["k"] == "agg" and rv["kind"].get("a") == "tuple":
+            out = {b""}
+            for x in rv["ops"]:
+                lx = nom_language(b, x, depth - 1, limit)
+                if lx is None:
+                    return None
+                out = {a + c for a in out for c in lx}
+                if len(out) > limit:
+                    return None
+            return out
+        return None
+    t = d[3]
+    fn = t["f"].get("fn") or ""
+    short = fn.rsplit("::", 1)[-1]
+    args = t["args"]
+    if not fn.startswith("nom::"):
+        return None
+    if short == "tag" and len(args) == 1:
+        kb = _const_bytes_through(b, args[0])
+        return {kb} if kb is not None else None
+    if short == "one_of" and len(args) == 1:
+        kb = _const_bytes_through(b, args[0])
+        return {bytes([x]) for x in kb} if kb is not None else None
+    if short == "alt" and len(args) == 1:
+        q = op_place(args[0])
+        dd = b.single_def(q["l"]) if q is not None and not q["p"] else None
+        if not (dd and dd[2] == "rv" and dd[3]["k"] == "agg" and dd[3]["kind"].get("a") == "tuple"):
+            return None
+        out = set()
+        for x in dd[3]["ops"]:
+            lx = nom_language(b, x, depth - 1, limit)
+            if lx is None:
+                return None
+            out |= lx
+        return out
+    if short in ("pair", "preceded", "terminated", "delimited", "separated_pair"):
+        out = {b""}
+        for x in args:
+            lx = nom_language(b, x, depth - 1, limit)
+            if lx is None:
+                return None
+            out = {a + c for a in out for c in lx}
+            if len(out) > limit:
+                return None
+        return out
+    if short == "opt" and len(args) == 1:
+        lx = nom_language(b, args[0], depth - 1, limit)
+        return None if lx is None else lx | {b""}
+    if short in ("map", "value", "recognize", "cut", "map_res", "map_opt", "verify") and args:
+        return nom_language(b, args[-1] if short == "value" else args[0], depth - 1, limit)
+    return None
